@@ -59,10 +59,52 @@ def detect(table, headers: List[str]):
     Returns (indices, negatives) or the name of the exception it raises."""
     from ..miniinterp import InterpRaise, Mini
     try:
-        r = Mini().call_function(_DC["fn"], {"df": _Frame(headers)})
+        r = Mini(_DC.get("globals")).call_function(_DC["fn"], {"df": _Frame(headers)})
     except InterpRaise as e:
         return e.kind, {}
     return r[0], r[1]
+
+
+def dd_node(model):
+    return model.fi(DS, "dataframe_to_data_sets").node
+
+
+def _documented_aliases(model) -> Dict[str, List[str]]:
+    dd = model.fi(DS, "dataframe_to_data_sets")
+    doc = ast.get_docstring(dd.node) or ""
+    docmap = {"Frequencies": "frequency", "Real parts": "real", "Imaginary parts": "imaginary", "Magnitudes": "magnitude", "Phases": "phase"}
+    out: Dict[str, List[str]] = {}
+    for line in doc.splitlines():
+        m = re.match(r"\s*-\s*(Frequencies|Real parts|Imaginary parts|Magnitudes|Phases)[^:]*:\s*(.*)$", line)
+        if not m:
+            continue
+        body = m.group(2).replace("\\|", "|")
+        names = []
+        for tok in body.rstrip(".").split(", "):
+            tok = tok.strip()
+            if tok.startswith("and "):
+                tok = tok[4:].strip()
+            if len(tok) >= 3 and tok[0] in "'\"" and tok[-1] in "'\"":
+                names.append(tok[1:-1])
+        out[docmap[m.group(1)]] = names
+    return out
+
+
+def _documented_table(model) -> List[Tuple[str, List[str]]]:
+    d = _documented_aliases(model)
+    fix = {"z'": "z''"}  # the docstring writes z'' with mismatched quotes ("z'')
+    tab = []
+    for k in KEYS:
+        al = []
+        for a in d.get(k, []):
+            a = a.lower()
+            if k == "imaginary" and a == "z'":
+                a = "z''"
+            al.append(a)
+        tab.append((k, al))
+    if sum(len(a) for _, a in tab) < 15:
+        raise AnalysisError("the documented alias list could not be read from dataframe_to_data_sets' docstring")
+    return tab
 
 
 def check(ctx: Ctx) -> None:
@@ -78,7 +120,13 @@ def check(ctx: Ctx) -> None:
     # ---------------- R6.1 ---------------------------------------------------------
     dc = model.fi(DS, "_detect_columns")
     _DC["fn"] = dc.node
-    table = _table(dc.node)
+    from ..miniinterp import module_globals
+    _DC["globals"] = module_globals(ctx.repo.modules[DS].tree)
+    try:
+        table = _table(dc.node)
+    except AnalysisError:
+        table = _documented_table(model)
+        ctx.note("_detect_columns: no literal alias table inside the function; aliases taken from the documented list in dataframe_to_data_sets")
     ctx.instance("R6.1", f"table order {[k for k, _ in table]}")
     if sorted(k for k, _ in table) == sorted(KEYS):
         ctx.ok()
@@ -114,36 +162,24 @@ def check(ctx: Ctx) -> None:
     if n_alias < 25:
         raise AnalysisError(f"R6.1: only {n_alias} aliases found (floor 25)")
     ctx.note(f"_detect_columns interpreted on {n_interp} header rows")
-    # documented aliases
-    dd = model.fi(DS, "dataframe_to_data_sets")
-    doc = ast.get_docstring(dd.node) or ""
-    docmap = {"Frequencies": "frequency", "Real parts": "real", "Imaginary parts": "imaginary", "Magnitudes": "magnitude", "Phases": "phase"}
+    # documented aliases: each is recognised as its quantity (interpreted, first column)
+    docd = _documented_aliases(model)
     n_doc = 0
-    for line in doc.splitlines():
-        m = re.match(r"\s*-\s*(Frequencies|Real parts|Imaginary parts|Magnitudes|Phases)[^:]*:\s*(.*)$", line)
-        if not m:
-            continue
-        key = docmap[m.group(1)]
-        body = m.group(2)
-        body = body.replace("\\|", "|")
-        names = []
-        for tok in body.rstrip(".").split(", "):
-            tok = tok.strip()
-            if tok.startswith("and "):
-                tok = tok[4:].strip()
-            if len(tok) >= 3 and tok[0] in "'\"" and tok[-1] in "'\"":
-                names.append(tok[1:-1])
-        alts = dict(table)[key]
+    for key, names in docd.items():
         for nm in names:
-            nm_l = nm.lower()
-            # the docstring writes z'' as "z'' and z" as 'z"' — normalise the trailing quote characters
-            cands = {nm_l, nm_l + "'", nm_l + '"', nm_l + "''"}
             n_doc += 1
             ctx.instance("R6.1", f"documented alias {nm!r} of {key}")
-            if cands & set(alts):
+            cands = [nm, nm + "'"] if (key == "imaginary" and nm.lower() == "z'") else [nm]
+            hit = False
+            for c_ in cands:
+                others = [canon[k] for k in KEYS if k != key]
+                idx, neg = detect(table, [c_] + others)
+                if isinstance(idx, dict) and idx.get(key) == 0 and neg.get(key) is False:
+                    hit = True
+            if hit:
                 ctx.ok()
             else:
-                ctx.violation("R6.1", f"documented:{key}:{nm}", DS, dd.node, f"the documented header {nm!r} for {key} is not in the alias table {alts}")
+                ctx.violation("R6.1", f"documented:{key}:{nm}", DS, dd_node(model), f"a column headed with the documented spelling {nm!r} is not detected as {key}")
     if n_doc < 15:
         raise AnalysisError(f"R6.1: only {n_doc} documented aliases parsed from the docstring (floor 15)")
     # the library's own headers
